@@ -47,7 +47,7 @@ def add_memory_ops(g, shared):
     # plain loads / stores
     for op in PLAIN_LOADS:
         rt = {"i32": "i", "i64": "j", "f32": "f", "f64": "d"}[op.split(".")[0]]
-        for off in OFFS + [65535]:
+        for off in OFFS + [65535] + ([70000, 300001] if op in ("i32.load", "i64.load16_s", "f64.load", "i32.load8_s") else []):
             for al in ("n", "0"):   # natural alignment hint and alignment 0
                 if off == 65535 and al == "0":
                     continue
@@ -56,7 +56,7 @@ def add_memory_ops(g, shared):
                 g.add(nm, "i", rt, [("local.get", 0), ins], "load", "%s,%d" % (op, off))
     for op in PLAIN_STORES:
         vt = {"i32": "i", "i64": "j", "f32": "f", "f64": "d"}[op.split(".")[0]]
-        for off in OFFS + [65535]:
+        for off in OFFS + [65535] + ([70000, 300001] if op in ("i32.store", "i64.store32", "f32.store", "i32.store8") else []):
             nm = "%s_o%d" % (ident(op), off)
             g.add(nm, "i" + vt, "", [("local.get", 0), ("local.get", 1), (op, off)], "store", "%s,%d" % (op, off))
     g.add("size", "", "i", ["memory.size"], "size")
@@ -353,6 +353,12 @@ def gen_xl_module(rnd, profile):
             m.data_passive(bytes(r.getrandbits(8) for _ in range(r.choice([0, 5, 64]))))
             if r.random() < 0.5:
                 m.data_active([("i32.const", 2000)], b"after-passive")
+    if profile.get("names") and r.random() < 0.3:
+        # a name section in front of the function section: either naming the imported functions only (well-formed at
+        # that position) or all functions (refers to functions not known yet; must not invalidate the module)
+        m.name_pos = "after_import"
+        if r.random() < 0.5 and nimp > 0:
+            m.func_names = {i: "imp%d" % i for i in range(nimp)}
     if r.random() < 0.2:
         m.customs.append(("producers", b"\x00", "end"))
     if r.random() < 0.1:
